@@ -723,6 +723,9 @@ func (c *Ctx) atomSym(f *FA, x *bvCtx, a int) string {
 		if id, ok := x.wireLeafOf(v); ok {
 			return x.leaves[id].Key
 		}
+		if id, ok := x.wireGroupOf(v); ok {
+			return x.leaves[id].Key
+		}
 		if call, ok := v.(*ssa.Call); ok {
 			if bi, ok := call.Call.Value.(*ssa.Builtin); ok && bi.Name() == "len" {
 				if fk, ok := fieldKeyOfLoad(call.Call.Args[0]); ok {
